@@ -229,9 +229,11 @@ func (x *Exec) chanRecv(ch *Val, st *St, fr *Frame, p token.Pos) (*Val, *Val) {
 	if z := x.zeroVal(ct.Elem()); z.T != nil && v.T != nil {
 		x.assume(st, Implies(Not(ok.T), Eq(v.T, z.T)))
 	}
-	// "receives G := e": ghost bookkeeping of the receiving goroutine, performed when a value was delivered (ok)
+	// "receives G := e": ghost bookkeeping of the receiving goroutine at every receive; e may mention ok (false when
+	// the channel was closed and the zero value was delivered)
 	if cc := x.chanContract(ch); cc != nil && len(cc.Receives) > 0 {
 		env := x.chanEnv(st, cc, ch, v)
+		env.Names["ok"] = ok
 		name := strings.TrimPrefix(cc.Key, "chan.")
 		x.wrapCfail("receives of channel "+name, func() {
 			vals := make([]*Term, len(cc.Receives))
@@ -244,9 +246,8 @@ func (x *Exec) chanRecv(ch *Val, st *St, fr *Frame, p token.Pos) (*Val, *Val) {
 					cfail("receives %s of channel %s: unknown ghost variable or wrong sort", r.Var, name)
 				}
 				x.checkWrite(st, g.Key, Null, p)
-				old := st.field(g)
 				nw := x.fresh(g.Key, g.Sort)
-				x.assume(st, Eq(nw, Ite(ok.T, vals[i], old)))
+				x.assume(st, Eq(nw, vals[i]))
 				st.heap[g.Key] = nw
 			}
 		})
